@@ -31,7 +31,8 @@ def dag_world(rng, wid, modroot="w", stats=None, **kw):
     W.pkgs["far"]["no_move"] = True
     # ... and one that imports both
     W.add_pkg("near")
-    W.add_file("near", "near.go", ['"%s/api"' % root, '"%s/d"' % root])
+    # "unsafe" is the one import for which no driver under go vet has a fact file; it sorts before the module's packages
+    W.add_file("near", "near.go", ['"unsafe"', '"%s/api"' % root, '"%s/d"' % root])
     W.add("near", "near.go", Decl("Near", ["func Near() {", "\t/*@%snear0:near-write*/ api.GetT().F = 1" % wid, "\t/*@%snear1:near-method*/ api.GetH().Reset()" % wid,
                                            "\t/*@%snear2:near-lit*/ _ = api.AT{}" % wid, "\t/*@%snear3:near-wide*/ _ = d.Wide{}" % wid, "\t/*@%snear4:near-paths*/ _ = d.Paths()" % wid,
                                            "\t/*@%snear5:near-byname*/ _ = d.ByName()" % wid, "\t/*@%snear6:near-emptylist*/ _ = d.EmptyList()" % wid, "}"]))
